@@ -70,12 +70,14 @@ def batch_scenarios(tier, seed, twin):
                 s, t = 1 + (g % 5), 7 + (g % 11)
                 if j % 3 == 2:
                     prior.append(dict(k=key, kind="att", s=s, t=t + 1, fmt="v1"))
+                if j % 7 == 5:
+                    s, t = t + 2, s      # an entry the rules refuse for what it is (target below source), between approvable neighbours
                 ents.append(dict(k=key, s=s, t=t, root="R%d" % (g % 7), troot="T%d" % j, by=("name", "key", "keypad")[j % 3]))
             sid = "B-%d-p%d" % (size, p)
             kind = "atts" if size > 1 or k % 2 else "att"
             sc = dict(id=sid, world=dict(nkeys=nkeys), conc=conc, gomaxprocs=p, prior=prior,
                       ops=[dict(id="batch", kind=kind, ents=ents),
-                           dict(id="multi", kind="multi", dom="randao", ents=[dict(k=key, root="M%d" % (j % 5), by=("key", "name")[j % 2]) for j, key in enumerate(keys)]),
+                           dict(id="multi", kind="multi", dom="randao", ents=[dict(dict(k=key, root="M%d" % (j % 5), by=("key", "name")[j % 2]), **(dict(dom="att") if j % 5 == 3 else {})) for j, key in enumerate(keys)]),
                            dict(id="prop", kind="prop", ents=[dict(k=keys[0], slot=9, root="P")]),
                            dict(id="gen", kind="gen", dom="selection", ents=[dict(k=keys[-1], root="G")])])
             scs.append(sc)
@@ -129,7 +131,7 @@ def run_batches(prop, tier, seed, wd, info, verdict, twin):
             b = [[e["res"][0] for e in tev if e["ev"] == "Respond"]]
             lines.append(dict(ev="SamePair", a=a, b=b, what="batch verdicts vs one-at-a-time"))
         index.append((start, len(lines), sid))
-    inv = ["SigForRequest", "SigIffSucceeded", "NoSlashableAtt"] + (["SamePairsHold", "AdvancingSigned"] if twin else [])
+    inv = ["SigForRequest", "SigIffSucceeded", "NoSlashableAtt", "AboveFloor"] + (["SamePairsHold", "AdvancingSigned"] if twin else [])
     # the thorough trace has about a million lines: validate it in chunks of whole scenarios (each scenario starts with Begin, which
     # resets the trace specification's state), several TLC runs at a time
     chunks, cur = [], []
